@@ -161,6 +161,13 @@ class SystematicLinearBlockCodeEncoder(LinearBlockCodeEncoder):
         # This will set up _length, _dimension, _redundancy, check_matrix, and generator_right_inverse
         super().__init__(generator_matrix=generator_matrix, **kwargs_copy)
 
+        # A systematic generator has the identity on the information positions, so selecting those
+        # positions is an exact right inverse (G @ R = I) for every information set
+        right_inverse = torch.zeros((n, k), dtype=generator_matrix.dtype)
+        right_inverse[self._information_set, torch.arange(k)] = 1
+        self._generator_right_inverse = right_inverse
+        self.register_buffer("generator_right_inverse", right_inverse)
+
         # After parent initialization, register buffers with different names to avoid conflicts with properties
         self.register_buffer("_info_set_buffer", self._information_set)
         self.register_buffer("_parity_set_buffer", self._parity_set)
